@@ -4,7 +4,7 @@ Confirms a seeded change independently (scratch worktree: builds, whole test
 suite passes, demonstration fails with / passes without the change), then
 applies it to /repo, runs the quick checks of the given properties, reverts,
 and records the outcome under /verif/seeded/."""
-import sys, os, re, json, subprocess, shutil, glob
+import fcntl, sys, os, re, json, subprocess, shutil, glob
 
 ENV = dict(os.environ, GOFLAGS="-mod=mod", GOPROXY="off", GOSUMDB="off", GOTOOLCHAIN="local")
 WT = "/tmp/wt_eval"
@@ -47,7 +47,8 @@ def main():
     meta["demo_fails_with_change"] = demo_with; meta["demo_passes_without_change"] = demo_without
     meta["confirmed"] = bool(suite_ok and demo_with and demo_without)
     print("confirm: builds=%s suite_ok=%s demo_fails_with=%s demo_passes_without=%s" % (rc_b == 0, suite_ok, demo_with, demo_without))
-    # run the checks against /repo with the change applied
+    # run the checks against /repo with the change applied (serialised with other users of /repo)
+    lockf = open("/tmp/repo.lock", "w"); fcntl.flock(lockf, fcntl.LOCK_EX)
     rc, out = sh(["git", "-C", "/repo", "status", "--porcelain"])
     if out.strip():
         print("/repo is dirty, refusing"); return 2
